@@ -3,6 +3,8 @@ from ..mutate import Mutant, in_func, delete_stmt
 from . import mergerules as mr
 from .tagtable import check_flag_tags
 
+from .common import Guard  # noqa: E402
+
 PROP = 'C03'
 DECIDED = [
     'R1: has_priority_over truth table (greater/less/equal x if_equal) with None = STANDARD and WEAK<STANDARD<FORCE.',
@@ -17,15 +19,18 @@ ASSUMPTIONS = ['priorities range over {None, WEAK, STANDARD, FORCE} (enforced by
 
 
 def check(repo, run, tier):
-    mr.has_priority_over_table(repo, run, 'C03.R1')
-    mr.leaf_winner_table(repo, run, 'C03.R2')
-    mr.composed_winner_table(repo, run, 'C03.R2')
-    mr.function_node_priority_calls(repo, run, 'C03.R2')
-    mr.survivor_fields(repo, run, 'C03.R3')
-    names = mr.inheritance_reach(repo, run, 'C03.R4')
-    mr.node_local_kwargs(repo, run, 'C03.R4b', names)
-    mr.child_kwargs_keys(repo, run, 'C03.R4c')
-    check_flag_tags(repo, run, 'C03.R5', tags={'!force', '!weak'})
+    g = Guard()
+    g(mr.has_priority_over_table, repo, run, 'C03.R1')
+    g(mr.leaf_winner_table, repo, run, 'C03.R2')
+    g(mr.composed_winner_table, repo, run, 'C03.R2')
+    g(mr.function_node_priority_calls, repo, run, 'C03.R2')
+    g(mr.survivor_fields, repo, run, 'C03.R3')
+    names = g(mr.inheritance_reach, repo, run, 'C03.R4')
+    if names is not None:
+        g(mr.node_local_kwargs, repo, run, 'C03.R4b', names)
+    g(mr.child_kwargs_keys, repo, run, 'C03.R4c')
+    g(check_flag_tags, repo, run, 'C03.R5', tags={'!force', '!weak'})
+    g.done()
 
 
 def mutants(repo):
